@@ -15,6 +15,16 @@ E1_TECH = ('bounded symbolic execution of the real yatiml/PyYAML code with '
            'bounds), counterexamples replayed on the unstubbed public API')
 
 CHECKS = {
+    'C13': dict(
+        text='Oracle-free pairs on the real pipeline: valid and singly '
+             'mutated documents of 16 class models are loaded twice, the '
+             'second time with every mapping\'s entries rotated/reversed, '
+             'with all scalar/collection styles and marks changed, with three '
+             'unrelated classes registered, with List/Sequence/'
+             'MutableSequence and Dict/Mapping/MutableMapping interchanged, '
+             'or with bool_union_fix added; both loads must fail or give '
+             'structurally equal values.',
+        design='4/C13'),
     'C18': dict(
         text='Oracle-free pairs on the real pipeline: for every ordered pair '
              'of nodes (i, j) of the base documents of 16 class models (i not '
